@@ -116,6 +116,100 @@ class World1:
         return self.store.snapshot()
 
 
+class World1Flask(World1):
+    """the same histories against the Flask integration: flask_oauth1.AuthorizationServer + ResourceProtector with the cache hooks it ships
+    (register_nonce_hooks, register_temporary_credential_hooks, create_exists_nonce_func) over a dict cache; credentials are numbered as in mem1"""
+    def __init__(self, methods):
+        import flask
+        from flask import Flask, jsonify
+        from authlib.integrations.flask_oauth1 import AuthorizationServer, ResourceProtector, current_credential
+        from authlib.integrations.flask_oauth1.cache import register_nonce_hooks, register_temporary_credential_hooks, create_exists_nonce_func
+        import authlib.integrations.flask_oauth1.authorization_server as fas
+        CLOCK.now = NOW0
+        self.store = st = mem1.Store1()
+        st.clients["ca"] = mem1.Client1("ca", SECRETS["ca"], "https://a/cb", None)
+        st.clients["cb"] = mem1.Client1("cb", SECRETS["cb"], "https://b/cb", None)
+        self.cfg = {"clients": [{"id": k, "secret": v} for k, v in SECRETS.items()], "methods": list(methods), "now": NOW0}
+        self.cache = cache = TTLCache()
+        app = Flask("c12-flask-world")
+        app.config["PROPAGATE_EXCEPTIONS"] = True
+        app.config["OAUTH1_SUPPORTED_SIGNATURE_METHODS"] = list(methods)
+
+        def gen():
+            a, b = ("tmp", "tsec") if flask.request.path == "/initiate" else ("tok", "sec")
+            return {"oauth_token": st.nxt(a), "oauth_token_secret": st.nxt(b)}
+        server = AuthorizationServer(app, query_client=lambda cid: st.clients.get(cid), token_generator=gen)
+        fas.generate_token = lambda n=36: st.nxt("ver")
+        register_nonce_hooks(server, cache)
+        register_temporary_credential_hooks(server, cache)
+        server.register_hook("create_token_credential", lambda token, temp: st.creds.setdefault(
+            token["oauth_token"], mem1.TokenCred(token["oauth_token"], token["oauth_token_secret"], temp.get_client_id(), temp.get_user_id())))
+        rp = ResourceProtector(app, query_client=lambda cid: st.clients.get(cid), query_token=lambda cid, t: st.creds.get(t), exists_nonce=create_exists_nonce_func(cache))
+        self._user = [None]
+
+        @app.route("/initiate", methods=["POST"])
+        def initiate():
+            return server.create_temporary_credentials_response()
+
+        @app.route("/authorize", methods=["GET"])
+        def authorize():
+            try:
+                return server.create_authorization_response(grant_user=self._user[0])
+            except OAuth1Error as e:
+                return jsonify(error=e.error), e.status_code
+
+        @app.route("/token", methods=["POST"])
+        def token():
+            return server.create_token_response()
+
+        @app.route("/resource", methods=["GET"])
+        @rp()
+        def resource():
+            return jsonify(token=current_credential.get_oauth_token())
+        self.app = app
+
+    def _step(self, op):
+        k = op["op"]
+        try:
+            if k == "advance":
+                CLOCK.now += op["dt"]; return self.out(200)
+            cl = self.app.test_client()
+            if k == "authorize":
+                self._user[0] = User(op["user"]) if op.get("user") is not None else None
+                r = cl.get("/authorize" + (f"?oauth_token={op['token']}" if op.get("token") is not None else ""), base_url="https://sp.example")
+                if r.status_code != 302:
+                    return self.out(r.status_code, (r.get_json(silent=True) or {}).get("error"))
+                q = dict(parse_qsl(urlparse(r.headers["Location"]).query))
+                if "error" in q:
+                    return self.out(302, q["error"])
+                return self.out(302, None, q.get("oauth_token"), None, q.get("oauth_verifier"))
+            if k == "initiate":
+                h = self.signed_headers(op, "POST", "https://sp.example/initiate", callback=op.get("callback"))
+                r = cl.post("/initiate", headers=h, base_url="https://sp.example")
+            elif k == "exchange":
+                h = self.signed_headers(op, "POST", "https://sp.example/token", token=op.get("token"), verifier=op.get("verifier"))
+                r = cl.post("/token", headers=h, base_url="https://sp.example")
+            else:
+                h = self.signed_headers(op, "GET", "https://sp.example/resource", token=op.get("token"))
+                r = cl.get("/resource", headers=h, base_url="https://sp.example")
+                if r.status_code == 200:
+                    return self.out(200, None, r.get_json()["token"])
+                return self.out(r.status_code, (r.get_json(silent=True) or {}).get("error"))
+            body = dict(parse_qsl(r.get_data(as_text=True)))
+            if r.status_code != 200:
+                return self.out(r.status_code, body.get("error"))
+            return self.out(200, None, body["oauth_token"], body["oauth_token_secret"])
+        except Exception as e:
+            return {"raised": type(e).__name__ + ": " + str(e)[:80]}
+
+    def snapshot(self):
+        temps = []
+        for k, (v, _) in self.cache.d.items():
+            if k.startswith("temporary_credential:"):
+                temps.append([k.split(":", 1)[1], v.get("client_id"), v.get("oauth_verifier"), v.get("user_id")])
+        return {"temps": sorted(temps), "creds": sorted([k, c.client_id, c.user_id] for k, c in self.store.creds.items())}
+
+
 def is_valid_cb(u):
     p = urlparse(u)
     return bool(p.scheme and p.hostname)
@@ -392,14 +486,20 @@ def fw_impl(c):
 def impl(c):
     if "fw" in c:
         return fw_impl(c)
-    w = World1(c["cfg"]["methods"])
-    outs = []
-    for op in c["ops"]:
-        o = w.step(op)
-        outs.append(o)
-        if "raised" in o:
-            break
-    return {"outs": outs, "store": w.snapshot()}
+    def run(w):
+        outs = []
+        for op in c["ops"]:
+            o = w.step(op)
+            outs.append(o)
+            if "raised" in o:
+                break
+        return {"outs": outs, "store": w.snapshot()}
+    out = run(World1(c["cfg"]["methods"]))
+    if not any(op.get("fault") is not None for op in c["ops"]):
+        o2 = run(World1Flask(c["cfg"]["methods"]))       # the Flask integration with its own cache hooks must answer the same
+        if o2 != out:
+            out["differs:flask"] = o2
+    return out
 
 
 def model_line(c):
@@ -421,6 +521,13 @@ def project(c, out):
 
 
 def oracle(c, out):
+    v = oracle_one(c, {k: x for k, x in out.items() if not k.startswith("differs:")})
+    if "differs:flask" in out:
+        v += [("[Flask integration with its cache hooks] " + what, dict(sig, fw="flask")) for what, sig in oracle_one(c, out["differs:flask"])]
+    return v
+
+
+def oracle_one(c, out):
     v = []
     def bad(what, **sig):
         v.append((what, sig))
